@@ -12,6 +12,18 @@ CHECKS = {
             'Static proof-by-schema: for each of the (pc, stab) specialisations and criterion lists the constraint families handed to PuLP before the first solve are extracted in closed form (forall-families over symbolic instance data, never an instance) and shown equal to the definition of a valid matching; variables Binary; grouping lists = scatter of all pairs by their own index; read-back selects by the same variables. This covers every instance and option set at once, which no finite test can; it decides the structural clause (the LP\'s solutions are exactly valid matchings), not CBC\'s behaviour.',
             'Trusted: CPython ast; PuLP semantics of LpVariable/+=/solve (A3); CBC returns exact 0/1 values (A6); well-formed instance (A1); the four row-membership facts discharged by C01.R4/C03.R4/C10.',
             'DESIGN.md section 5 C01'),
+    'C05': ('linear normal form of the alpha/beta/gamma families (incl. sorted-prefix-scan and running-prefix summaries) compared with the reference SPA-STL encoding; oracle re-derived exhaustively over the predicate abstraction',
+            'Static proof-by-schema: under -stab the three stability families handed to PuLP are extracted as forall-families over symbolic instance data and shown equal to the reference encoding, which is itself shown equivalent to the blocking-pair definition on all feasible valuations of 7 predicates; alpha/beta Binary; families unconditional, before any solve, absent without -stab. Covers every two-sided instance at once. A different-but-equivalent encoding is outside the fragment (exit 2), not a violation.',
+            'Trusted: ast; A1, A3, A6; rows of pairs sorted by dense ranks from 1 (discharged by C10/C13); row-membership facts (C01.R4).',
+            'DESIGN.md section 5 C05 + Appendix A'),
+    'C14': ('solve/check typestate over the inlined, specialised effect tree (loops to fixpoint, value-sensitive status tests); edge-dominance of every output statement by the Timeout and Optimal gates on the CFG of get_results; gate conditions decided by truth table over their atoms',
+            'Part: decides the structural clauses that are necessary for the property - no solve is issued while the previous one is unchecked or after a non-Optimal status (every criterion, arities, sequences), run() returns the latest status unchanged into pulp_status, and every statement that can emit the matching, a statistic or stability_correct is reachable only past the Timeout gate (limit set and (Not Solved or total_s > limit)) and through the Optimal edge of the status gate, with constants equal to the PuLP LpStatus strings read from the library source. Fault injection can only sample solve positions; the typestate covers all of them, including per-rank solves.',
+            'NOT decided: that a time-limited stop always makes total_s exceed the limit (wall clock) - the only guard against an incumbent reported Optimal. Trusted: ast, PuLP constants.py source, A3.',
+            'DESIGN.md section 5 C14'),
+    'C16': ('abstract interpretation of Options_parser.parse to an effect tree: scatter/compact idiom, guard normal forms (integer interval of the range test), guard/scatter order, CFG dominance in Solver.__init__, argparse table vs documented flag table, typestate for the executed prefix',
+            'Static: the ordering helper is shown to be scatter-at-(position-1) plus ascending compaction (hence sorted by position, gaps allowed, for every position assignment); each present criterion is range-checked against exactly 1..9 before the scatter; the duplicate check compares kept-count with present-count on every path; -stab without -twopl is refused on every path through parse(); parse dominates import_model; extras stay with their criterion; each criterion records its line before its first solve and the run stops at the first non-Optimal solve. Position vectors are never enumerated or executed.',
+            'Trusted: ast; argparse contracts A5 (parser.error does not return; nargs=+ gives a list; store default None).',
+            'DESIGN.md section 5 C16'),
 }
 
 NOT_YET = 'checker under construction in this round (see DESIGN.md section 5 for the planned static rules)'
